@@ -44,6 +44,17 @@ if TYPE_CHECKING:
     from hiten.system.orbits.lyapunov import LyapunovOrbit
     from hiten.system.orbits.vertical import VerticalOrbit
 
+def _orbit_state_key(orbit) -> tuple:
+    """Hashable summary of the logical state (initial state, period) of an orbit.
+
+    Correction and continuation results depend on the state they start from,
+    so it is part of their cache keys.
+    """
+    state = orbit.dynamics.initial_state
+    state_key = None if state is None else tuple(np.asarray(state, dtype=float).ravel().tolist())
+    return (state_key, orbit.dynamics.period)
+
+
 class _OrbitPersistenceService(_PersistenceServiceBase):
     """Thin wrapper around orbit persistence helpers.
     
@@ -132,7 +143,8 @@ class _OrbitCorrectionService(_DynamicsServiceBase):
             options = self.correction_options
         
         # Cache key based on options
-        cache_key = self.make_key("correct", tuple(sorted(options.to_dict().items())))
+        # The result depends on the state being corrected, not only on the options
+        cache_key = self.make_key("correct", _orbit_state_key(self.domain_obj), tuple(sorted(options.to_dict().items())))
 
         def _factory() -> tuple[np.ndarray, float, OrbitCorrectionDomainPayload, "CorrectionResult"]:
             result = self.corrector.correct(self.domain_obj, options=options)
@@ -275,7 +287,8 @@ class _OrbitContinuationService(_DynamicsServiceBase):
             options = self.continuation_options
         
         # Cache key based on options
-        cache_key = self.make_key("generate", tuple(sorted(options.to_dict().items())))
+        # The result depends on the seed state, not only on the options
+        cache_key = self.make_key("generate", _orbit_state_key(self.domain_obj), tuple(sorted(options.to_dict().items())))
 
         def _factory() -> ContinuationDomainPayload:
             result = self.generator.generate(self.domain_obj, options)
